@@ -159,6 +159,7 @@ func c06(c *core.Check) {
 		fmt.Sprintf("GoConstants filters with %q and GoVariables with %q: a constant is declared twice or not at all", pol["GoConstants"], pol["GoVariables"]))
 	// templates
 	c06scopes(c)
+	c06redirect(c)
 	pkgIdentityByPath(c)
 	st := tmplEngine(c)
 	if st == nil {
